@@ -82,7 +82,7 @@ class CTS_ECB(Mode):
             M.append(self._cipher.dec(P.read(self.len)))
         if p>0:
             mlast = M.pop()
-            M.append(self._cipher.dec(P.read(p)+mast[p:]))
+            M.append(self._cipher.dec(P.read(p)+mlast[p:]))
             M.append(mlast[:p])
         return b''.join(M)
 
